@@ -13,11 +13,11 @@ namespace TD.C09
 theorem feed_print (c : LasContent) (l : LasLayout) (hwf : wfContent c = true) :
     ∃ wv, checkV (vSection c).members = some wv ∧
       feed St.init (print c l) = .ok ⟨(c.sects.map expectSect).reverse ++ [vSection c], some wv, none,
-        .arr ⟨wrapOf c, (curvesOf c).map (fun h => ((.text h.mnem : Value), (.text h.unit : Value))),
+        .arr ⟨wrapOf c, declaredNull c, (curvesOf c).map (fun h => ((.text h.mnem : Value), (.text h.unit : Value))),
               (rowToks c.frames l.rows).reverse, []⟩⟩ := by
   simp only [wfContent, Bool.and_eq_true, List.all_eq_true, Bool.not_eq_true', Bool.or_eq_true,
-    decide_eq_true_eq, beq_iff_eq] at hwf
-  obtain ⟨⟨⟨⟨⟨⟨⟨⟨⟨⟨hv, hcv⟩, hs⟩, hdist⟩, hC⟩, hmn⟩, hdt⟩, hfr⟩, hne⟩, hdx⟩, hwr⟩ := hwf
+    beq_iff_eq] at hwf
+  obtain ⟨⟨⟨⟨⟨⟨⟨⟨⟨hv, hcv⟩, hs⟩, hdist⟩, hC⟩, hmn⟩, hdt⟩, hfr⟩, hne⟩, hdx⟩ := hwf
   obtain ⟨wv, hwv⟩ := Option.isSome_iff_exists.1 hcv
   refine ⟨wv, hwv, ?_⟩
   have hcur := find_curve c hs hC
@@ -40,13 +40,13 @@ theorem feed_print (c : LasContent) (l : LasLayout) (hwf : wfContent c = true) :
   rw [hsec]
   have hopen : openA ⟨(c.sects.map expectSect).reverse ++ [vSection c], some wv, none, .top⟩ =
       .ok ⟨(c.sects.map expectSect).reverse ++ [vSection c], some wv, none,
-        .arr ⟨wrapOf c, (curvesOf c).map (fun h => ((.text h.mnem : Value), (.text h.unit : Value))), [], []⟩⟩ := by
+        .arr ⟨wrapOf c, declaredNull c, (curvesOf c).map (fun h => ((.text h.mnem : Value), (.text h.unit : Value))), [], []⟩⟩ := by
     unfold openA
     rw [firstCurve_eq c _ hcur]
     simp only [curveNames_hdr, List.map_map]
     have h1 : ((fun (x : Value × Value) => x.1) ∘ fun (h : HLine) => ((.text h.mnem : Value), (.text h.unit : Value))) =
         Value.text ∘ (fun h => h.mnem) := by funext h; rfl
-    rw [h1, ← List.map_map, hasDupKey_text _ hmn, isDateTime_names _ hdt, identClash_text, hwrap]
+    rw [h1, ← List.map_map, hasDupKey_text _ hmn, isDateTime_names _ hdt, nullOf_eq c _ hs, hwrap]
     simp
   rw [hopen]
   simp only [thenFeed]
@@ -54,45 +54,42 @@ theorem feed_print (c : LasContent) (l : LasLayout) (hwf : wfContent c = true) :
   have hrows : ∀ row ∈ c.frames, row.length = ((curvesOf c).map (fun h => ((.text h.mnem : Value), (.text h.unit : Value)))).length ∧
       ∀ d ∈ row, wfCell d = true := by
     intro row hr; rw [List.length_map]; exact hfr row hr
+  have hne' : ∀ row ∈ c.frames, row ≠ [] ∧ row.length = (((curvesOf c).map (fun h => ((.text h.mnem : Value), (.text h.unit : Value))))).length ∧
+      ∀ d ∈ row, wfCell d = true := by
+    intro row hr
+    refine ⟨?_, (hrows row hr).1, (hfr row hr).2⟩
+    intro h0
+    rcases hne with h | h
+    · rw [List.isEmpty_iff] at h; rw [h] at hr; cases hr
+    · have := (hfr row hr).1
+      rw [h0] at this
+      have h3 : curvesOf c = [] := List.eq_nil_of_length_eq_zero this.symm
+      rw [h3] at h; simp at h
   cases hw : wrapOf c with
   | true =>
-    have h2 : 2 ≤ ((curvesOf c).map (fun h => ((.text h.mnem : Value), (.text h.unit : Value)))).length := by
-      rw [List.length_map]
-      rcases hwr with h | h
-      · rw [hw] at h; cases h
-      · exact h
-    rw [feed_rows_wrapped c.frames l.rows _ _ _ [] _ h2 hrows]
+    rw [feed_rows_wrapped c.frames l.rows _ _ _ _ [] _ hne']
     have := feed_junk ⟨(c.sects.map expectSect).reverse ++ [vSection c], some wv, none,
-      .arr ⟨true, ((curvesOf c).map (fun h => ((.text h.mnem : Value), (.text h.unit : Value)))), (rowToks c.frames l.rows).reverse ++ [], []⟩⟩ l.tail []
+      .arr ⟨true, declaredNull c, ((curvesOf c).map (fun h => ((.text h.mnem : Value), (.text h.unit : Value)))), (rowToks c.frames l.rows).reverse ++ [], []⟩⟩ l.tail []
     simp only [List.append_nil] at this ⊢
     rw [this]; rfl
   | false =>
-    have hne' : ∀ row ∈ c.frames, row ≠ [] ∧ ∀ d ∈ row, wfCell d = true := by
-      intro row hr
-      refine ⟨?_, (hfr row hr).2⟩
-      intro h0
-      rcases hne with h | h
-      · rw [List.isEmpty_iff] at h; rw [h] at hr; cases hr
-      · have := (hfr row hr).1
-        rw [h0] at this
-        have h3 : curvesOf c = [] := List.eq_nil_of_length_eq_zero this.symm
-        rw [h3] at h; simp at h
-    rw [feed_rows_unwrapped c.frames l.rows _ _ _ [] _ hne']
+    rw [feed_rows_unwrapped c.frames l.rows _ _ _ _ [] _ (fun row hr => ⟨(hne' row hr).1, (hne' row hr).2.2⟩)]
     have := feed_junk ⟨(c.sects.map expectSect).reverse ++ [vSection c], some wv, none,
-      .arr ⟨false, ((curvesOf c).map (fun h => ((.text h.mnem : Value), (.text h.unit : Value)))), (rowToks c.frames l.rows).reverse ++ [], []⟩⟩ l.tail []
+      .arr ⟨false, declaredNull c, ((curvesOf c).map (fun h => ((.text h.mnem : Value), (.text h.unit : Value)))), (rowToks c.frames l.rows).reverse ++ [], []⟩⟩ l.tail []
     simp only [List.append_nil] at this ⊢
     rw [this]; rfl
 
 /-- **parse ∘ print = id** — for every well-formed content and EVERY layout (padding, comment and blank lines
-anywhere, blank/TAB separators, number styles, wrapped or not as the content's WRAP line says) the reader returns
+anywhere, blank/TAB separators, number styles, wrapped or not as the content's WRAP line says, any number of curves
+≥ 1 in either mode) the reader returns
 exactly the content: every section line (mnemonic, unit, typed value, description), the channels in curve order and
-every data value, with tokens that are not numbers replaced by the reader's null. -/
+every data value, with tokens that are not numbers replaced by the null value the file declares. -/
 theorem parse_print (c : LasContent) (l : LasLayout) (hwf : wfContent c = true) :
     parse (print c l) = .ok (toFile c) := by
   obtain ⟨wv, _, hfeed⟩ := feed_print c l hwf
   simp only [wfContent, Bool.and_eq_true, List.all_eq_true, Bool.not_eq_true', Bool.or_eq_true,
-    decide_eq_true_eq, beq_iff_eq] at hwf
-  obtain ⟨⟨⟨⟨⟨⟨⟨⟨⟨⟨hv, hcv⟩, hs⟩, hdist⟩, hC⟩, hmn⟩, hdt⟩, hfr⟩, hne⟩, hdx⟩, hwr⟩ := hwf
+    beq_iff_eq] at hwf
+  obtain ⟨⟨⟨⟨⟨⟨⟨⟨⟨hv, hcv⟩, hs⟩, hdist⟩, hC⟩, hmn⟩, hdt⟩, hfr⟩, hne⟩, hdx⟩ := hwf
   have hrows : ∀ row ∈ c.frames, row.length = ((curvesOf c).map (fun h => ((.text h.mnem : Value), (.text h.unit : Value)))).length ∧
       ∀ d ∈ row, wfCell d = true := by
     intro row hr; rw [List.length_map]; exact hfr row hr
@@ -100,7 +97,7 @@ theorem parse_print (c : LasContent) (l : LasLayout) (hwf : wfContent c = true) 
   have : run St.init (genLines (print c l)) = feed St.init (print c l) := rfl
   rw [this, hfeed]
   simp only [finish]
-  rw [finaliseArr_rows _ _ c.frames l.rows hrows hdx]
+  rw [finaliseArr_rows _ _ _ c.frames l.rows hrows hdx]
   simp [toFile]
 
 /-- **layout independence**: two layouts of the same content read identically. -/
@@ -116,17 +113,18 @@ theorem wrap_unwrap_equal (c₁ c₂ : LasContent) (l₁ l₂ : LasLayout) (h₁
     ∃ f₁ f₂, parse (print c₁ l₁) = .ok f₁ ∧ parse (print c₂ l₂) = .ok f₂ ∧
       f₁.array = f₂.array ∧ f₁.sections.tail = f₂.sections.tail := by
   refine ⟨toFile c₁, toFile c₂, parse_print c₁ l₁ h₁, parse_print c₂ l₂ h₂, ?_, ?_⟩
-  · simp only [toFile, curvesOf, hs, hf]
+  · simp only [toFile, curvesOf, declaredNull, hs, hf]
   · simp only [toFile, List.tail_cons, hs]
 
-/-- **null substitution**: in the array returned for a printed content, a cell holds the number written, and the
-reader's null exactly where the token written is not a number. -/
+/-- **null substitution**: in the array returned for a printed content, the null value is the one the well section
+declares (`NULL` line with an int or float value; -999.25 when there is none), a cell holds the number written, and the
+null marker (stored by the reader as that declared value) exactly where the token written is not a number. -/
 theorem bad_value_becomes_null (c : LasContent) (l : LasLayout) (hwf : wfContent c = true) :
-    ∃ f a, parse (print c l) = .ok f ∧ f.array = some a ∧
+    ∃ f a, parse (print c l) = .ok f ∧ f.array = some a ∧ a.null = declaredNull c ∧
       a.frames = c.frames.map (fun row => row.map (fun d => match d with
         | .num m e => Cell.num m e
         | .bad _ => Cell.null)) := by
-  refine ⟨toFile c, _, parse_print c l hwf, rfl, ?_⟩
+  refine ⟨toFile c, _, parse_print c l hwf, rfl, rfl, ?_⟩
   apply List.map_congr_left; intro row _
   apply List.map_congr_left; intro d _
   cases d <;> rfl
@@ -193,6 +191,14 @@ def exContent (wrap : Bool) : LasContent :=
     frames := [[.num 16350 (-1), .num 123450 (-3), .bad "N/A".toList],
                [.num 16345 (-1), .bad "-".toList, .num 2550 0]] }
 
+/-- a single-curve log with its own NULL, wrapped or not (two frames: the index value alone completes a frame) -/
+def exContent1 (wrap : Bool) : LasContent :=
+  { v := [exLine "VERS" "" (.float 20 (-1)) "", exLine "WRAP" "" (.bool wrap) ""],
+    sects := [.hdr 'W' [exLine "NULL" "" (.int (-9999)) "declared null"], .hdr 'C' [exLine "DEPT" "M" (.text []) ""]],
+    frames := [[.num 10 0], [.bad "N/A".toList]] }
+
+example : wfContent (exContent1 true) = true ∧ wfContent (exContent1 false) = true ∧
+    declaredNull (exContent1 true) = (-9999, 0) ∧ wrapOf (exContent1 true) = true := by decide +kernel
 example : wfContent (exContent false) = true := by decide +kernel
 example : wfContent (exContent true) = true := by decide +kernel
 example : wrapOf (exContent true) = true ∧ wrapOf (exContent false) = false := by decide +kernel
